@@ -3067,7 +3067,11 @@ class BSP:
             if self.static_prop_version is StaticPropVersion.UNKNOWN:
                 for vers in StaticPropVersion:
                     if vers.version == vers_num:
+                        # The first one is the standard layout, later ones are game-specific variants.
+                        if vers is StaticPropVersion.V11 and self.version is VERSIONS.BLACK_MESA:
+                            vers = StaticPropVersion.V_LIGHTMAP_MESA
                         self.static_prop_version = vers
+                        break
             return
         struct_size = (len(data) - static_lump.tell()) / prop_count
         # print(f'Static prop: {prop_count} * {struct_size} bytes')
